@@ -47,6 +47,18 @@ Theorem C10_callers : forall c, c_locking c = true -> forall progs, (forall t m,
 Proof. exact callers_get_what_was_popped. Qed.
 Print Assumptions C10_callers.
 
+(* MultiPort fan-in (senders on the sub-ports, receivers on the MultiPort), ANY number of sub-ports and threads, ANY programs, ANY schedule:
+   no call raises; every message sent on a sub-port is in exactly one place - still queued on that sub-port, or (in the order taken from
+   there) among what the MultiPort took over, which is in order what its callers popped, what it has queued and what the sweep in progress carries *)
+Require Import Mido.Model.ConcMulti Mido.Proofs.ConcMultiProofs.
+Theorem C10_multi_no_raise : forall n progs sched t e, mat (snd (mrun sched (minit n progs)) t) <> MRaised e.
+Proof. exact multi_no_raise. Qed.
+Print Assumptions C10_multi_no_raise.
+Theorem C10_multi_exactly_once : forall n progs sched, let s := fst (mrun sched (minit n progs)) in
+  (forall i, msent s i = mine i (allpopped s) ++ mq s (S i)) /\ map snd (allpopped s) = (map snd (mrecvd s) ++ mq s 0) ++ cur_acc s.
+Proof. exact multi_exactly_once. Qed.
+Print Assumptions C10_multi_exactly_once.
+
 (* without the lock (a DummyLock on a port whose deque is shared - IOPort.receive before its repair) the property fails: a schedule *)
 Theorem C10_unlocked_refuted : at_ (snd (crun unlocked [0; 0; 0; 1; 1; 2; 2; 1; 2]%nat (cinit race_progs)) 2%nat) = Raised IndexError.
 Proof. exact unlocked_refuted. Qed.
